@@ -31,9 +31,10 @@ from vlib import vZ, vlist, vopt
 LEVEL = "proof"
 TRUSTED_BASE = [
     "Coq 8.16.1 kernel + vm_compute (evaluation of the sparse reference on every case); no native_compute",
-    "axioms: none (Print Assumptions: Closed under the global context for all 29 C16 theorems)",
+    "axioms: none (Print Assumptions: Closed under the global context for all 32 C16 theorems)",
     "Model/SparseOps.v as the sparse-only reference (proved: den of every operation = NumPy meaning; longest "
-    "list built <= stored elements [+ rows for the GCXS-like form], independent of size(shape))",
+    "list built <= stored elements [+ rows for the GCXS-like form], independent of size(shape)); its result is sorted "
+    "with Coq's verified merge sort and pruned (canon_den, canon_eq_sound) before the raw coords/data are compared",
     "Spec side of the den-theorems: Lib/Shape.v (ravel/unravel/all_indices), Model/COO.v (den), Spec/PySlice.v "
     "(slice.indices / len(range)) used to normalise Python slices in the judge",
     "Model/GCXS.v gcxs_as_coo / gcxs_wfb and Corr/SArr.v as the meaning of what the implementation returned",
